@@ -240,6 +240,10 @@ def gen_worker_script(rs: int, knobs: Optional[dict] = None) -> dict:
     if kn["retry"] is not None:
         mws.insert(rc.randint(0, len(mws)), {"retry": kn["retry"]})
     cfg["middlewares"] = mws
+    if len(mws) >= 2 and rc.random() < 0.4:
+        cfg["mw_split"] = [rc.randint(1, len(mws) - 1), rc.choice(["with+with", "add+with", "with+add", "add+add"])]
+    if rc.random() < 0.5:
+        cfg["pool_size"] = rc.choice([1, 3, 8, 16])      # explicit size of the sync-task pool (api: sync_workers, cli: --max-threadpool-threads)
     tasks = gen_tasks(rc, kn)
     n_real = len(tasks)
     tasks.append({"name": "ghost", "client_only": True, "ctx": False, "sync": False, "deps": [], "root": []})
